@@ -459,6 +459,17 @@ double cmb_random_std_gamma(const double shape)
 {
     cmb_assert_release(shape > 0.0);
 
+    if (shape < 1.0) {
+        /*
+         * Marsaglia & Tsang's method needs shape >= 1. Sample shape + 1 and
+         * scale by U^(1/shape), see section 6 of their paper. The two draws are
+         * separate statements: their order is part of the random stream.
+         */
+        const double g = cmb_random_std_gamma(shape + 1.0);
+        const double u = cmb_random();
+        return g * pow(u, 1.0 / shape);
+    }
+
     static CMB_THREAD_LOCAL double a_prev = 0.0;
     static CMB_THREAD_LOCAL double c = 0.0;
     static CMB_THREAD_LOCAL double d = 0.0;
